@@ -116,7 +116,7 @@ def table_canary(ctx, d, table, mutate, spec_table=None):
     hit = [t for t in res.of("ROWBAD") if t[1] == ctx.prop]
     ctx.canary = {"table": table, "corrupted_row": rows[idx][:10], "rejected": bool(hit),
                   "findings": [t[1:3] for t in res.of("ROWBAD")][:4]}
-    if not hit:
+    if not hit and not ctx.viol:       # with real findings on the table the verdict is already 'violation'
         raise ToolError("table canary accepted for %s: %s" % (ctx.prop, res.of("ROWBAD")[:3]))
 
 
